@@ -6,6 +6,7 @@ import ast
 from ..cfg import CFG, EXIT
 from ..core import AnalysisError, calls_in, call_name, dotted, unparse, walk_no_nested
 from ..facts import assign_facts, return_facts, show
+from ..match import canonical_statements
 from ..report import Ctx
 from ..terms import NODES, node_class_terms
 
@@ -244,7 +245,7 @@ def r4_writers_place_blocks(ctx: Ctx) -> None:
     r1_framing(ctx)
     r2_tiling_loop(ctx)
     sw = ctx.repo.func("a816.writers", "SFCWriter.write_block")
-    body = [unparse(s) for s in sw.node.body]
+    body = canonical_statements(sw.node)
     ctx.check(body == [f"self.file.seek({sw.params()[2]})", f"self.file.write({sw.params()[1]})"], "SFCWriter.write_block", f"seek to the block's offset, then write the block; found {body}")
 
 
